@@ -15,19 +15,9 @@
 (* usize values that do not fit TLC's integers are encoded as negative     *)
 (* numbers: -(usize::MAX - v) - 1, so -1 = MAX, -2 = MAX - 1, ...          *)
 (***************************************************************************)
-EXTENDS Envelope, Integers, Sequences, FiniteSets, TLC
+EXTENDS CodecRules, TLC
 
 CONSTANTS Role        \* "enc" | "dec"
-
-Huge(v) == v < 0
-Ge(a, b) == Huge(a) \/ (~Huge(b) /\ a >= b)        \* a >= b on encoded values (b never huge here)
-IsOdd(v) == IF v >= 0 THEN v % 2 = 1 ELSE (0 - v - 1) % 2 = 0   \* usize::MAX is odd
-BadSize(sb) == sb = 0 \/ IsOdd(sb)
-Max2(a, b) == IF a > b THEN a ELSE b
-
-\* supports on encoded values: a huge count is never supported
-SupportsE(kind, k, r) == ~Huge(k) /\ ~Huge(r) /\ k <= EOrder /\ r <= EOrder /\ Supports(kind, k, r)
-SuppKind(kind) == IF kind = "rs" THEN "default" ELSE kind
 
 Blocks(sb) == (sb + 63) \div 64
 \* working-space need of a configuration: 64-byte blocks of shard memory, bitmap bits (decoder)
@@ -45,14 +35,6 @@ VARIABLES kind,    \* "high" | "low" | "default" | "rs"
           held,    \* [blocks, bits]: largest working-space need since the work space was created (history)
           last     \* the call just made: arguments, allowed returns, expected views (observation only)
 vars == <<kind, cfg, rate, added, gotO, gotR, res, held, last>>
-
-OK == {[ok |-> TRUE]}
-AllowedOf(violations) == IF violations = {} THEN OK ELSE violations
-
-ConfigViolations(kd, k, r, sb) ==
-     (IF ~SupportsE(SuppKind(kd), k, r)
-      THEN {[err |-> "UnsupportedShardCount", original_count |-> k, recovery_count |-> r]} ELSE {})
-\cup (IF BadSize(sb) THEN {[err |-> "InvalidShardSize", shard_bytes |-> sb]} ELSE {})
 
 InitWith(kd, k, r, sb) ==
   LET rt == RateOf(SuppKind(kd), k, r) IN
@@ -89,22 +71,16 @@ Rehouse(kd, k, r, sb) == kind # "rs" /\ kd # "rs" /\ Reconfigure("rehouse", kd, 
 (***************************************************************************)
 EncAdd(pay, len) ==
   /\ Role = "enc" /\ res = "none"
-  /\ LET al == AllowedOf(
-          (IF Len(added) = cfg.k THEN {[err |-> "TooManyOriginalShards", original_count |-> cfg.k]} ELSE {})
-     \cup (IF len # cfg.sb THEN {[err |-> "DifferentShardSize", shard_bytes |-> cfg.sb, got |-> len]} ELSE {})) IN
+  /\ LET al == AllowedOf(EncAddViolations(cfg.k, cfg.sb, Len(added), len)) IN
      /\ last' = [act |-> "add", pay |-> pay, len |-> len, allowed |-> al, may_alloc |-> FALSE]
      /\ IF al = OK THEN added' = Append(added, pay) ELSE UNCHANGED added
      /\ UNCHANGED <<kind, cfg, rate, gotO, gotR, res, held>>
 
 Encode ==
   /\ Role = "enc" /\ res = "none"
-  /\ IF Len(added) = cfg.k
-     THEN /\ res' = "live"
-          /\ last' = [act |-> "encode", allowed |-> OK, may_alloc |-> FALSE]
-     ELSE /\ UNCHANGED res
-          /\ last' = [act |-> "encode", may_alloc |-> FALSE,
-                      allowed |-> {[err |-> "TooFewOriginalShards", original_count |-> cfg.k,
-                                    original_received_count |-> Len(added)]}]
+  /\ LET al == AllowedOf(EncodeViolations(cfg.k, Len(added))) IN
+     /\ res' = (IF al = OK THEN "live" ELSE res)
+     /\ last' = [act |-> "encode", allowed |-> al, may_alloc |-> FALSE]
   /\ UNCHANGED <<kind, cfg, rate, added, gotO, gotR, held>>
 
 (***************************************************************************)
@@ -114,13 +90,7 @@ DecAdd(which, i, len) ==
   /\ Role = "dec" /\ res = "none"
   /\ LET cnt == IF which = "original" THEN cfg.k ELSE cfg.r
          got == IF which = "original" THEN gotO ELSE gotR
-         al == AllowedOf(
-          (IF Ge(i, cnt) THEN {IF which = "original"
-                               THEN [err |-> "InvalidOriginalShardIndex", original_count |-> cnt, index |-> i]
-                               ELSE [err |-> "InvalidRecoveryShardIndex", recovery_count |-> cnt, index |-> i]} ELSE {})
-     \cup (IF i \in got THEN {[err |-> IF which = "original" THEN "DuplicateOriginalShardIndex"
-                                                             ELSE "DuplicateRecoveryShardIndex", index |-> i]} ELSE {})
-     \cup (IF len # cfg.sb THEN {[err |-> "DifferentShardSize", shard_bytes |-> cfg.sb, got |-> len]} ELSE {})) IN
+         al == AllowedOf(DecAddViolations(which, cnt, cfg.sb, got, i, len)) IN
      /\ last' = [act |-> "add_" \o which, index |-> i, len |-> len, allowed |-> al, may_alloc |-> FALSE]
      /\ IF al = OK THEN (IF which = "original" THEN gotO' = gotO \cup {i} /\ UNCHANGED gotR
                                                ELSE gotR' = gotR \cup {i} /\ UNCHANGED gotO)
@@ -129,14 +99,9 @@ DecAdd(which, i, len) ==
 
 Decode ==
   /\ Role = "dec" /\ res = "none"
-  /\ IF Cardinality(gotO) + Cardinality(gotR) >= cfg.k
-     THEN /\ res' = "live"
-          /\ last' = [act |-> "decode", allowed |-> OK, may_alloc |-> FALSE]
-     ELSE /\ UNCHANGED res
-          /\ last' = [act |-> "decode", may_alloc |-> FALSE,
-                      allowed |-> {[err |-> "NotEnoughShards", original_count |-> cfg.k,
-                                    original_received_count |-> Cardinality(gotO),
-                                    recovery_received_count |-> Cardinality(gotR)]}]
+  /\ LET al == AllowedOf(DecodeViolations(cfg.k, Cardinality(gotO), Cardinality(gotR))) IN
+     /\ res' = (IF al = OK THEN "live" ELSE res)
+     /\ last' = [act |-> "decode", allowed |-> al, may_alloc |-> FALSE]
   /\ UNCHANGED <<kind, cfg, rate, added, gotO, gotR, held>>
 
 (***************************************************************************)
